@@ -291,6 +291,33 @@ func c09Facts(w *bytes.Buffer) {
 	}
 	c09StrList(w, "cutoffBranch", branch)
 	c09StrList(w, "cutoffRefused", elseRet)
+	// how the key of the two maps is built: `ref := …` in cellResolver and `entry: …` in CalcCellValue
+	// (the cut-off compares them, so both must be the same injective expression of sheet and cell)
+	var keyExprs []string
+	if fd := funcDecl("File", "cellResolver"); fd != nil {
+		ast.Inspect(fd.Body, func(x ast.Node) bool {
+			if as, ok := x.(*ast.AssignStmt); ok && len(as.Lhs) == 1 && len(as.Rhs) == 1 {
+				if id, ok := as.Lhs[0].(*ast.Ident); ok && id.Name == "ref" {
+					keyExprs = append(keyExprs, "cellResolver: ref "+as.Tok.String()+" "+oneLine(src(as.Rhs[0])))
+				}
+			}
+			return true
+		})
+	}
+	if fd := funcDecl("File", "CalcCellValue"); fd != nil {
+		ast.Inspect(fd.Body, func(x ast.Node) bool {
+			if kv, ok := x.(*ast.KeyValueExpr); ok {
+				if id, ok := kv.Key.(*ast.Ident); ok && id.Name == "entry" {
+					keyExprs = append(keyExprs, "CalcCellValue: entry: "+oneLine(src(kv.Value)))
+				}
+			}
+			return true
+		})
+	}
+	if len(keyExprs) < 2 {
+		fail("cellResolver `ref :=` / CalcCellValue `entry:` key expressions")
+	}
+	c09StrList(w, "ctxKeyExprs", keyExprs)
 	// --- lazy array-formula expansion (cell.go: getCellFormula) ---------------
 	w.WriteString("/-! lazy expansion of array formulas (cell.go: getCellFormula): is `f.formulaChecked = true` placed before the `setArrayFormulaCells()` call (then a failed expansion is reported once only)? -/\n")
 	assignIdx, callIdx := -1, -1
